@@ -143,8 +143,8 @@ PROPS.update({
 
 # C01 is judged on every stream that writes lines: parsed rows (json), templated rows incl. leading hidden
 # columns and long lines (template), and whole Stream() runs (stream)
-PROPS["C01"]["streams"] = [{"name": "json"}, {"name": "template"}, {"name": "stream"}]
-PROPS["C01"]["rule"] = PROPS["C01"]["rule"] + " ++ " + TEMPLATE_RULE + " ++ the stream stream of C07/C08 (every Write recorded separately)"
+PROPS["C01"]["streams"] = [{"name": "json"}, {"name": "template"}, {"name": "stream"}, {"name": "jl", "focus": "C01"}]
+PROPS["C01"]["rule"] = PROPS["C01"]["rule"] + " ++ " + TEMPLATE_RULE + " ++ the stream stream of C07/C08 (every Write recorded separately) ++ the jl stream (the real command as a filter with stdin kept open: each line comes back whole before the next is sent)"
 
 PROPS.update({
     "C19": {"streams": [{"name": "jl"}],
